@@ -19,6 +19,7 @@ import (
 	"sort"
 	"strconv"
 	"strings"
+	"syscall"
 	"testing"
 	"time"
 
@@ -178,10 +179,32 @@ func runSelection(t *testing.T, tape *kernel.Tape) *kernel.Result {
 		env.Fault("spelling-" + sp.class)
 	}
 
+	// the transport in effect for the measured call loses its connection before anything comes back
+	cutKind := 0
+	if tape.Bool(6, "connection-cut-before-the-response") {
+		cutKind = 1 + tape.Choose(3, "cut-error")
+		env.Fault("connection-cut-before-the-response")
+	}
+	contacted := map[string]int{}
 	var seenCtx context.Context
 	mkTransport := func(tag string) http.RoundTripper {
 		return roundTripFunc(func(req *http.Request) (*http.Response, error) {
 			seenCtx = req.Context()
+			contacted[tag]++
+			effective := "runtime"
+			if opClient {
+				effective = "operation"
+			}
+			if cutKind != 0 && tag == effective && contacted[tag] == 1 {
+				switch cutKind {
+				case 1:
+					return nil, io.EOF
+				case 2:
+					return nil, fmt.Errorf("read tcp 192.0.2.1:443: %w", io.ErrUnexpectedEOF)
+				default:
+					return nil, fmt.Errorf("write tcp 192.0.2.1:443: %w", syscall.ECONNRESET)
+				}
+			}
 			if rtCtxDone && opCtx {
 				// give anything that watches the transport-wide context its chance to interfere
 				time.Sleep(2 * time.Millisecond)
@@ -266,6 +289,29 @@ func runSelection(t *testing.T, tape *kernel.Tape) *kernel.Result {
 		_, _ = rt.Submit(&first)
 		seenCtx = nil
 	}
+	// an earlier call whose response object the caller holds on to (as runtime.APIError does for unexpected statuses)
+	var kept runtime.ClientResponse
+	keptCode, keptToken := 0, ""
+	if cutKind == 0 && tape.Bool(4, "earlier-response-kept-by-the-caller") {
+		env.Fault("earlier-response-kept-by-the-caller")
+		savedStatus, savedHdrs := status, hdrs
+		status, hdrs = 503, http.Header{"Content-Type": {"application/json"}, "X-Token": {"earlier-call"}}
+		first := *op
+		first.Reader = runtime.ClientResponseReaderFunc(func(r runtime.ClientResponse, _ runtime.Consumer) (any, error) {
+			kept = r
+			keptCode, keptToken = r.Code(), r.GetHeader("X-Token")
+			return nil, runtime.NewAPIError("unexpected status", r, r.Code())
+		})
+		saveCons := rt.Consumers
+		rt.Consumers = map[string]runtime.Consumer{"application/json": runtime.JSONConsumer()}
+		_, _ = rt.Submit(&first)
+		rt.Consumers = saveCons
+		status, hdrs = savedStatus, savedHdrs
+		seenCtx = nil
+		for k := range contacted {
+			delete(contacted, k)
+		}
+	}
 	var err error
 	if pm := kernel.Catch(func() { _, err = rt.Submit(op) }); pm != "" {
 		env.Violate("C13/panic", sp.class, "Submit panicked: %s", pm)
@@ -273,6 +319,25 @@ func runSelection(t *testing.T, tape *kernel.Tape) *kernel.Result {
 		return res
 	}
 	env.Log("caller", "Submit err=%v reader=%v consumer=%v", err, readerRan, gotCons)
+	if kept != nil && (kept.Code() != keptCode || kept.GetHeader("X-Token") != keptToken) {
+		env.Violate("C13/response-altered", "kept-response-of-an-earlier-call", "the response of an earlier call, still held by its caller, read %d / %q when it was received and reads %d / %q after a later call", keptCode, keptToken, kept.Code(), kept.GetHeader("X-Token"))
+	}
+	if cutKind != 0 && !(rtCtxDone && !opCtx) {
+		// the call's own transport failed before any response: the failure is the caller's to see, and no other client stands in
+		other := "operation"
+		if opClient {
+			other = "runtime"
+		}
+		switch {
+		case err == nil || readerRan:
+			env.Violate("C13/precedence", "client:failed-call-answered-through-another-client", "the transport in effect lost its connection before any response, yet Submit returned err=%v and the reader ran=%v (contacted %v)", err, readerRan, contacted)
+		case contacted[other] > 0:
+			env.Violate("C13/precedence", "client:other-client-contacted", "the transport in effect failed; the %s client was contacted %d times", other, contacted[other])
+		}
+		res.FromEnv(env)
+		res.Sig = kernel.Mix(res.Sig, kernel.HashString(res.Summary))
+		return res
+	}
 	if rtCtxDone {
 		// a per-operation context takes precedence over the transport-wide one
 		switch {
